@@ -108,8 +108,8 @@ theorem gen_eq_model (config : RouterConfig) (s : Plumb.Site) (o : Plumb.OpenSit
 
 /-! ### non-vacuity -/
 
-/-- the defect that was in this code base (receive/send swapped at the call sites) is *not* a
-model of the specification: the sizes of the seeded example tell the two apart -/
+/-- distinct sizes tell the two fields apart (`ConnConfig` lists send first): receive 1111 and
+send 2222 arrive as receive 1111 and send 2222 -/
 example : (Plumb.plumb .addNextHop .connectedLink ⟨64, 1111, 2222⟩) = ⟨2222, 1111⟩ := rfl
 
 example : Gen.effective Scion.Gen.Plumb.site0_makeDataPlane Scion.Gen.Plumb.open_NewInternalLink
